@@ -61,6 +61,15 @@ def inumbers(l, try_parse=False, text_is_zero=False):
             yield 0
 
 
+def ichecked(l):
+    """ every item, after making sure none of them is an error """
+    items = flatten(l)
+    for el in items:
+        if isinstance(el, error.XLError):
+            raise el
+    return iter(items)
+
+
 def numbers(l, try_parse=False, text_is_zero=False):
     return list(inumbers(l, try_parse=try_parse, text_is_zero=text_is_zero))
 
